@@ -5,6 +5,8 @@ import TinyHttpModel.Req
 import TinyHttpModel.WireSpec
 import TinyHttpModel.Lemmas.Ahead
 import TinyHttpModel.Lts.Par
+import TinyHttpModel.Lemmas.PipelineAhead
+import TinyHttpModel.Props.C09
 
 namespace TH.Props.C11
 open TH TH.Req
@@ -69,6 +71,353 @@ example : (aheadLoop 10 b!"GET /a HTTP/1.1\r\n\r\nPOST /b HTTP/1.1\r\nContent-Le
     = [b!"/a", b!"/b", b!"/c"] := by decide
 example : (aheadLoop 10 b!"POST /b HTTP/1.1\r\nContent-Length: 2000\r\n\r\nabcGET /c HTTP/1.1\r\n\r\n" .open)
     = ([⟨⟨b!"POST"⟩, b!"/b", ⟨1, 1⟩, [⟨b!"Content-Length", b!"2000"⟩]⟩], .blockedOnBody) := by decide
+
+/-! ### end to end: a whole pipeline is read ahead while nothing is answered -/
+
+/-- a well-formed request on a connection that stays open, not asking for 100-continue
+    (`C09.wellBodied`), whose body is absent or at most 1024 bytes (an explicit `Content-Length: 0`
+    included) -/
+def smallBodied (m : C09.CMsg) : Prop :=
+  C09.wellBodied m ∧
+  (match m.body with
+   | .absent => True
+   | .plain body => body.length ≤ Extracted.smallBodyLimit
+   | .chunked _ _ => False)
+
+/-- a `C09.wellBodied` request whose body is streamed from the socket: a Content-Length body of
+    more than 1024 bytes, or a chunked body -/
+def streamedBodied (m : C09.CMsg) : Prop :=
+  C09.wellBodied m ∧
+  (match m.body with
+   | .absent => False
+   | .plain body => Extracted.smallBodyLimit < body.length
+   | .chunked _ _ => True)
+
+/-- the framing of a `smallBodied` request: its body is buffered at parse time (`.buffered n`,
+    `n ≤ 1024`) or there is none (`.empty`) — its reader never keeps the stream. -/
+theorem smallBodied_framing (m : C09.CMsg) (hm : smallBodied m) :
+    ∃ fr, framingOf m.head.headers = .ok fr ∧ fr.expectContinue = false ∧
+      ((fr.kind = .empty ∧ m.body.wire = []) ∨
+        (fr.kind = .buffered m.body.wire.length ∧ m.body.wire.length ≤ Extracted.smallBodyLimit)) := by
+  obtain ⟨head, ows, body⟩ := m
+  obtain ⟨⟨_, _, hbody, _, _⟩, hsmall⟩ := hm
+  cases body with
+  | absent => exact ⟨_, hbody, rfl, Or.inl ⟨rfl, rfl⟩⟩
+  | chunked cs zero => exact absurd hsmall (fun h => h)
+  | plain B =>
+    rcases hbody with hfr | hfr | ⟨hB, hfr⟩
+    · exact ⟨_, hfr, rfl, Or.inr ⟨rfl, hsmall⟩⟩
+    · have := framingOf_limited_large _ _ _ hfr rfl rfl
+      have hs : B.length ≤ Extracted.smallBodyLimit := hsmall
+      omega
+    · subst hB
+      exact ⟨_, hfr, rfl, Or.inl ⟨rfl, rfl⟩⟩
+
+/-- the framing of a `streamedBodied` request: `.limited n` with `n > 1024`, or `.chunked`. -/
+theorem streamedBodied_framing (m : C09.CMsg) (hm : streamedBodied m) :
+    ∃ fr, framingOf m.head.headers = .ok fr ∧
+      ((∃ n, fr.kind = .limited n ∧ Extracted.smallBodyLimit < n) ∨ fr.kind = .chunked) := by
+  obtain ⟨head, ows, body⟩ := m
+  obtain ⟨⟨_, _, hbody, _, _⟩, hbig⟩ := hm
+  cases body with
+  | absent => exact absurd hbig (fun h => h)
+  | chunked cs zero => exact ⟨_, hbody.1, Or.inr rfl⟩
+  | plain B =>
+    have hb : Extracted.smallBodyLimit < B.length := hbig
+    rcases hbody with hfr | hfr | ⟨hB, hfr⟩
+    · have := (framingOf_buffered _ _ _ hfr rfl).1
+      omega
+    · exact ⟨_, hfr, Or.inl ⟨_, rfl, hb⟩⟩
+    · subst hB
+      simp at hb
+
+/-- one iteration of the read-ahead on a `smallBodied` message, whatever follows it: the request
+    becomes available and the read-ahead goes on at the first byte after the message. -/
+theorem smallBodied_step (m : C09.CMsg) (hm : smallBodied m) (fuel : Nat) (rest : Bytes) (fin : EndState) :
+    aheadLoop (fuel + 1) (Spec.renderHead m.head m.ows ++ (m.body.wire ++ rest)) fin =
+      (m.head :: (aheadLoop fuel rest fin).1, (aheadLoop fuel rest fin).2) := by
+  obtain ⟨fr, hfr, _, hk⟩ := smallBodied_framing m hm
+  obtain ⟨⟨hwf, hows, _, hlast, hver⟩, _⟩ := hm
+  obtain ⟨k, len, ex⟩ := fr
+  rcases hk with ⟨hk, hw⟩ | ⟨hk, _⟩
+  · simp only [] at hk
+    subst hk
+    rw [hw, List.nil_append]
+    exact aheadLoop_empty_step fuel m.head m.ows len ex rest fin hwf hows hfr hlast hver
+  · simp only [] at hk
+    subst hk
+    exact aheadLoop_buffered_step fuel m.head m.ows len ex m.body.wire rest fin hwf hows hfr hlast hver
+
+/-- one iteration of the read-ahead on a `streamedBodied` message: the request becomes available
+    as soon as its head is there, and the read-ahead stops — whatever bytes follow the head. -/
+theorem streamedBodied_step (m : C09.CMsg) (hm : streamedBodied m) (fuel : Nat) (tail : Bytes) (fin : EndState) :
+    aheadLoop (fuel + 1) (Spec.renderHead m.head m.ows ++ tail) fin = ([m.head], .blockedOnBody) := by
+  obtain ⟨fr, hfr, hk⟩ := streamedBodied_framing m hm
+  obtain ⟨⟨hwf, hows, _, _, hver⟩, _⟩ := hm
+  refine aheadLoop_streamed_step fuel m.head m.ows fr tail fin hwf hows hfr ?_ hver
+  rcases hk with ⟨n, hk, _⟩ | hk <;> rw [hk] <;> exact ⟨by simp, by simp⟩
+
+/-- the pipeline lemma behind the two theorems below: `msgs` all `smallBodied`, followed by ANY
+    bytes `rest`: all the heads of `msgs` become available and the read-ahead goes on with `rest`. -/
+theorem ahead_small_pipeline (msgs : List C09.CMsg) (fin : EndState) (fuel : Nat) (rest : Bytes)
+    (hgood : ∀ m ∈ msgs, smallBodied m) (hfuel : msgs.length ≤ fuel) :
+    aheadLoop fuel ((msgs.map C09.cmsgBytes).flatten ++ rest) fin =
+      (msgs.map (·.head) ++ (aheadLoop (fuel - msgs.length) rest fin).1,
+        (aheadLoop (fuel - msgs.length) rest fin).2) :=
+  aheadLoop_generic_pipeline C09.CMsg.head C09.CMsg.ows (fun m => m.body.wire) fin msgs
+    (fun m hm fuel rest => smallBodied_step m (hgood m hm) fuel rest fin) fuel rest hfuel
+
+/-- Read-ahead, end to end (first sentence of C11): in a pipeline of ANY number of requests whose
+    bodies are all absent or at most 1024 bytes (none asking for 100-continue), however the
+    client's stream ends after it, EVERY request becomes available to the application while none
+    has been answered — the heads read ahead are exactly the heads sent, in order — and the
+    connection thread is never blocked on a body: it ends waiting for the client if the stream is
+    still open, and closed otherwise. -/
+theorem pipeline_all_available_unanswered (msgs : List C09.CMsg) (fin : EndState)
+    (hgood : ∀ m ∈ msgs, smallBodied m) :
+    let bytes := (msgs.map C09.cmsgBytes).flatten
+    (aheadLoop (bytes.length + 1) bytes fin).1 = msgs.map (·.head) ∧
+      (aheadLoop (bytes.length + 1) bytes fin).2 = aheadEndOf fin := by
+  intro bytes
+  have hlen : msgs.length ≤ bytes.length :=
+    generic_pipeline_length_ge C09.CMsg.head C09.CMsg.ows (fun m => m.body.wire) msgs
+  have h := ahead_small_pipeline msgs fin (bytes.length + 1) [] hgood (by omega)
+  rw [List.append_nil] at h
+  obtain ⟨k, hk⟩ : ∃ k, bytes.length + 1 - msgs.length = k + 1 := ⟨bytes.length - msgs.length, by omega⟩
+  rw [hk, aheadLoop_nil] at h
+  show (aheadLoop (bytes.length + 1) bytes fin).1 = _ ∧ (aheadLoop (bytes.length + 1) bytes fin).2 = _
+  rw [h]
+  exact ⟨List.append_nil _, rfl⟩
+
+/-- …after the client's orderly close: all available, then closed. -/
+theorem pipeline_all_available_unanswered_eof (msgs : List C09.CMsg) (hgood : ∀ m ∈ msgs, smallBodied m) :
+    let bytes := (msgs.map C09.cmsgBytes).flatten
+    aheadLoop (bytes.length + 1) bytes .eof = (msgs.map (·.head), .closed) := by
+  intro bytes
+  have h := pipeline_all_available_unanswered msgs .eof hgood
+  exact Prod.ext h.1 h.2
+
+/-- …with the client still connected: all available, and the connection thread waits for the
+    client — not for the application. -/
+theorem pipeline_all_available_unanswered_open (msgs : List C09.CMsg) (hgood : ∀ m ∈ msgs, smallBodied m) :
+    let bytes := (msgs.map C09.cmsgBytes).flatten
+    aheadLoop (bytes.length + 1) bytes .open = (msgs.map (·.head), .waitingForClient) := by
+  intro bytes
+  have h := pipeline_all_available_unanswered msgs .open hgood
+  exact Prod.ext h.1 h.2
+
+/-- Read-ahead, end to end (second sentence of C11, the delay): after any number of
+    `smallBodied` requests `msgs₁`, a request `big` with a streamed body (Content-Length above
+    1024, or chunked), then ANY bytes `tail` (its body followed by any number of further requests,
+    part of its body, nothing, garbage), with any end of the stream: the requests of `msgs₁` and
+    `big` itself become available — `big` as soon as its head has been read, before any byte of its
+    body — and the connection thread is then blocked on that body.  The right-hand side does not
+    mention `tail`: nothing after the head of `big` is looked at. -/
+theorem pipeline_blocked_exactly_at_first_streamed_head (msgs₁ : List C09.CMsg) (big : C09.CMsg)
+    (tail : Bytes) (fin : EndState)
+    (h₁ : ∀ m ∈ msgs₁, smallBodied m) (hb : streamedBodied big) :
+    let bytes := (msgs₁.map C09.cmsgBytes).flatten ++ (Spec.renderHead big.head big.ows ++ tail)
+    aheadLoop (bytes.length + 1) bytes fin = (msgs₁.map (·.head) ++ [big.head], .blockedOnBody) := by
+  intro bytes
+  have hlen : msgs₁.length ≤ ((msgs₁.map C09.cmsgBytes).flatten).length :=
+    generic_pipeline_length_ge C09.CMsg.head C09.CMsg.ows (fun m => m.body.wire) msgs₁
+  have hb1 : msgs₁.length ≤ bytes.length := by
+    show msgs₁.length ≤ ((msgs₁.map C09.cmsgBytes).flatten ++ _).length
+    rw [List.length_append]; omega
+  have h := ahead_small_pipeline msgs₁ fin (bytes.length + 1) (Spec.renderHead big.head big.ows ++ tail)
+    h₁ (by omega)
+  obtain ⟨k, hk⟩ : ∃ k, bytes.length + 1 - msgs₁.length = k + 1 := ⟨bytes.length - msgs₁.length, by omega⟩
+  rw [hk, streamedBodied_step big hb k tail fin] at h
+  exact h
+
+/-- the same with the whole of `big` on the wire, followed by any bytes (for instance the requests
+    `msgs₂`): exactly the heads of `msgs₁` and of `big` are available, the successors wait. -/
+theorem pipeline_blocked_exactly_at_first_streamed (msgs₁ : List C09.CMsg) (big : C09.CMsg)
+    (tail : Bytes) (fin : EndState)
+    (h₁ : ∀ m ∈ msgs₁, smallBodied m) (hb : streamedBodied big) :
+    let bytes := ((msgs₁ ++ [big]).map C09.cmsgBytes).flatten ++ tail
+    aheadLoop (bytes.length + 1) bytes fin = (msgs₁.map (·.head) ++ [big.head], .blockedOnBody) := by
+  intro bytes
+  have hbytes : bytes = (msgs₁.map C09.cmsgBytes).flatten ++
+      (Spec.renderHead big.head big.ows ++ (big.body.wire ++ tail)) := by
+    show ((msgs₁ ++ [big]).map C09.cmsgBytes).flatten ++ tail = _
+    simp [C09.cmsgBytes]
+  rw [hbytes]
+  exact pipeline_blocked_exactly_at_first_streamed_head msgs₁ big (big.body.wire ++ tail) fin h₁ hb
+
+/-- …in particular with further requests `msgs₂` of any kind behind `big`: none of them is
+    available while `big` is unanswered and its body unread, whatever they are. -/
+theorem successors_wait_for_streamed_body (msgs₁ msgs₂ : List C09.CMsg) (big : C09.CMsg) (fin : EndState)
+    (h₁ : ∀ m ∈ msgs₁, smallBodied m) (hb : streamedBodied big) :
+    let bytes := ((msgs₁ ++ [big] ++ msgs₂).map C09.cmsgBytes).flatten
+    aheadLoop (bytes.length + 1) bytes fin = (msgs₁.map (·.head) ++ [big.head], .blockedOnBody) := by
+  intro bytes
+  have hbytes : bytes = ((msgs₁ ++ [big]).map C09.cmsgBytes).flatten ++ (msgs₂.map C09.cmsgBytes).flatten := by
+    show ((msgs₁ ++ [big] ++ msgs₂).map C09.cmsgBytes).flatten = _
+    rw [List.map_append, List.flatten_append]
+  rw [hbytes]
+  exact pipeline_blocked_exactly_at_first_streamed msgs₁ big _ fin h₁ hb
+
+theorem smallBodied_wellBodied (m : C09.CMsg) (h : smallBodied m) : C09.wellBodied m := h.1
+theorem streamedBodied_wellBodied (m : C09.CMsg) (h : streamedBodied m) : C09.wellBodied m := h.1
+
+/-- Second sentence of C11, the end of the delay, on the full connection model: in
+    `msgs₁ ++ [big] ++ msgs₂` (all `C09.wellBodied`: `big` and the others with bodies of any size
+    and either form) answered by ANY script — the handler of `big` reading all of its body, part
+    of it or none, then answering, dropping, taking the writer or failing — the requests after
+    `big` ARE delivered, all of them and as sent: the delivered list is the list sent, its part
+    after the first `msgs₁.length + 1` entries is `msgs₂`, and the connection closes in order.
+    (Instance of `C09.pipeline_with_any_bodies`.) -/
+theorem successors_delivered_after_streamed_body (msgs₁ msgs₂ : List C09.CMsg) (big : C09.CMsg)
+    (script : Script)
+    (h₁ : ∀ m ∈ msgs₁, C09.wellBodied m) (hb : C09.wellBodied big) (h₂ : ∀ m ∈ msgs₂, C09.wellBodied m) :
+    let t := Conn.run (((msgs₁ ++ [big] ++ msgs₂).map C09.cmsgBytes).flatten) .eof script
+    t.delivered.map (fun d => (d.method, d.url, d.version, d.headers, d.bodyLength)) =
+        (msgs₁ ++ [big] ++ msgs₂).map
+          (fun m => (m.head.method, m.head.url, m.head.version, m.head.headers, m.body.declared)) ∧
+      (t.delivered.drop (msgs₁.length + 1)).map (fun d => (d.method, d.url, d.version, d.headers, d.bodyLength)) =
+        msgs₂.map (fun m => (m.head.method, m.head.url, m.head.version, m.head.headers, m.body.declared)) ∧
+      (∀ d, t.delivered[msgs₁.length]? = some d → d.bodyRead <+: big.body.payload) ∧
+      t.ending = .closed := by
+  intro t
+  have hall : ∀ m ∈ msgs₁ ++ [big] ++ msgs₂, C09.wellBodied m := by
+    intro m hm
+    simp only [List.mem_append, List.mem_cons, List.not_mem_nil, or_false] at hm
+    rcases hm with (hm | rfl) | hm
+    · exact h₁ m hm
+    · exact hb
+    · exact h₂ m hm
+  obtain ⟨hd, hpre, hend⟩ := C09.pipeline_with_any_bodies (msgs₁ ++ [big] ++ msgs₂) script hall
+  refine ⟨hd, ?_, ?_, hend⟩
+  · have hd' : t.delivered.map (fun d => (d.method, d.url, d.version, d.headers, d.bodyLength)) = _ := hd
+    rw [List.map_drop, hd', ← List.map_drop]
+    have : (msgs₁ ++ [big] ++ msgs₂).drop (msgs₁.length + 1) = msgs₂ := by
+      have hl : (msgs₁ ++ [big]).length = msgs₁.length + 1 := by simp
+      rw [← hl, List.drop_left]
+    rw [this]
+  · intro d hdl
+    exact hpre msgs₁.length d big hdl (by simp)
+
+/-- Both sentences on one pipeline: `msgs₁` small, `big` streamed, `msgs₂` small.  While nothing
+    is answered, exactly `msgs₁` and `big` are available (the connection thread is blocked on the
+    body of `big`); once the handlers run — any script — everything is delivered, and without
+    `big` (all bodies small) everything is available at once. -/
+theorem streamed_body_delays_successors_only_until_handled (msgs₁ msgs₂ : List C09.CMsg) (big : C09.CMsg)
+    (script : Script)
+    (h₁ : ∀ m ∈ msgs₁, smallBodied m) (hb : streamedBodied big) (h₂ : ∀ m ∈ msgs₂, smallBodied m) :
+    let bytes := ((msgs₁ ++ [big] ++ msgs₂).map C09.cmsgBytes).flatten
+    let small := ((msgs₁ ++ msgs₂).map C09.cmsgBytes).flatten
+    aheadLoop (bytes.length + 1) bytes .eof = (msgs₁.map (·.head) ++ [big.head], .blockedOnBody) ∧
+    (Conn.run bytes .eof script).delivered.map (fun d => (d.method, d.url, d.version, d.headers)) =
+      (msgs₁ ++ [big] ++ msgs₂).map (fun m => (m.head.method, m.head.url, m.head.version, m.head.headers)) ∧
+    aheadLoop (small.length + 1) small .eof = ((msgs₁ ++ msgs₂).map (·.head), .closed) := by
+  intro bytes small
+  refine ⟨successors_wait_for_streamed_body msgs₁ msgs₂ big .eof h₁ hb, ?_, ?_⟩
+  · have h := (successors_delivered_after_streamed_body msgs₁ msgs₂ big script
+      (fun m hm => (h₁ m hm).1) hb.1 (fun m hm => (h₂ m hm).1)).1
+    have h' := congrArg (List.map (fun (x : Method × Bytes × Version × List Header × Option Nat) =>
+      (x.1, x.2.1, x.2.2.1, x.2.2.2.1))) h
+    simp only [List.map_map] at h'
+    exact h'
+  · exact pipeline_all_available_unanswered_eof (msgs₁ ++ msgs₂) (by
+      intro m hm
+      rcases List.mem_append.mp hm with hm | hm
+      · exact h₁ m hm
+      · exact h₂ m hm)
+
+/-! non-vacuity: concrete pipelines -/
+
+def exA : C09.CMsg := ⟨⟨⟨b!"GET"⟩, b!"/a", ⟨1, 1⟩, []⟩, [], .absent⟩
+def exB : C09.CMsg := ⟨⟨⟨b!"POST"⟩, b!"/b", ⟨1, 1⟩, [⟨b!"Content-Length", b!"3"⟩]⟩, [(b!" ", [])], .plain b!"abc"⟩
+def exC : C09.CMsg := ⟨⟨⟨b!"PUT"⟩, b!"/c", ⟨1, 1⟩, [⟨b!"Content-Length", b!"0"⟩]⟩, [(b!" ", [])], .plain []⟩
+def exD : C09.CMsg := ⟨⟨⟨b!"GET"⟩, b!"/d", ⟨1, 1⟩, []⟩, [], .absent⟩
+/-- a body one byte above the limit -/
+def exBig : C09.CMsg :=
+  ⟨⟨⟨b!"POST"⟩, b!"/big", ⟨1, 1⟩, [⟨b!"Content-Length", b!"1025"⟩]⟩, [(b!" ", [])], .plain (List.replicate 1025 120)⟩
+
+/-- the hypotheses of `pipeline_all_available_unanswered` hold of `GET /a`, `POST /b` with three
+    body bytes, `PUT /c` with an explicit `Content-Length: 0`, `GET /d` -/
+theorem ex_smallBodied : ∀ m ∈ [exA, exB, exC, exD], smallBodied m := by
+  intro m hm
+  simp only [List.mem_cons, List.not_mem_nil, or_false] at hm
+  rcases hm with rfl | rfl | rfl | rfl
+  · refine ⟨⟨by decide, by decide, ?_, by decide, by decide⟩, trivial⟩
+    show framingOf exA.head.headers = .ok ⟨.empty, none, false⟩
+    decide
+  · refine ⟨⟨by decide, by decide, ?_, by decide, by decide⟩, ?_⟩
+    · show framingOf exB.head.headers = .ok ⟨.buffered (b!"abc").length, some (b!"abc").length, false⟩ ∨ _
+      exact Or.inl (by decide)
+    · show (b!"abc").length ≤ Extracted.smallBodyLimit
+      decide
+  · refine ⟨⟨by decide, by decide, ?_, by decide, by decide⟩, ?_⟩
+    · show _ ∨ _ ∨ (([] : Bytes) = [] ∧ framingOf exC.head.headers = .ok ⟨.empty, some 0, false⟩)
+      exact Or.inr (Or.inr ⟨rfl, by decide⟩)
+    · show ([] : Bytes).length ≤ Extracted.smallBodyLimit
+      decide
+  · refine ⟨⟨by decide, by decide, ?_, by decide, by decide⟩, trivial⟩
+    show framingOf exD.head.headers = .ok ⟨.empty, none, false⟩
+    decide
+
+/-- …and `exBig` is `streamedBodied` -/
+theorem ex_streamedBodied : streamedBodied exBig := by
+  refine ⟨⟨by decide, by decide, ?_, by decide, by decide⟩, ?_⟩
+  · show _ ∨ framingOf exBig.head.headers =
+        .ok ⟨.limited (List.replicate 1025 120).length, some (List.replicate 1025 120).length, false⟩ ∨ _
+    rw [List.length_replicate]
+    exact Or.inr (Or.inl (by decide))
+  · show Extracted.smallBodyLimit < (List.replicate 1025 120).length
+    rw [List.length_replicate]
+    decide
+
+/-- the bytes on the wire -/
+example : ([exA, exB, exC, exD].map C09.cmsgBytes).flatten =
+    b!"GET /a HTTP/1.1\r\n\r\nPOST /b HTTP/1.1\r\nContent-Length: 3\r\n\r\nabcPUT /c HTTP/1.1\r\nContent-Length: 0\r\n\r\nGET /d HTTP/1.1\r\n\r\n" := by
+  decide
+
+/-- the theorem applied: all four available while none is answered, then closed / waiting -/
+example :
+    aheadLoop ((([exA, exB, exC, exD].map C09.cmsgBytes).flatten).length + 1)
+        (([exA, exB, exC, exD].map C09.cmsgBytes).flatten) .eof
+      = ([exA.head, exB.head, exC.head, exD.head], .closed) :=
+  pipeline_all_available_unanswered_eof _ ex_smallBodied
+
+/-- the model evaluated on it, directly -/
+example :
+    aheadLoop 200 b!"GET /a HTTP/1.1\r\n\r\nPOST /b HTTP/1.1\r\nContent-Length: 3\r\n\r\nabcPUT /c HTTP/1.1\r\nContent-Length: 0\r\n\r\nGET /d HTTP/1.1\r\n\r\n" .eof
+      = ([exA.head, exB.head, exC.head, exD.head], .closed) := by decide
+example :
+    (aheadLoop 200 b!"GET /a HTTP/1.1\r\n\r\nPOST /b HTTP/1.1\r\nContent-Length: 3\r\n\r\nabcPUT /c HTTP/1.1\r\nContent-Length: 0\r\n\r\nGET /d HTTP/1.1\r\n\r\n" .open).2
+      = .waitingForClient := by decide
+
+/-- a 1025-byte body in the middle: `GET /a`, `POST /b` and `POST /big` are available, `GET /d`
+    behind the large body is not, the connection thread is blocked on that body (by the theorem) -/
+example (fin : EndState) :
+    aheadLoop (((([exA, exB] ++ [exBig] ++ [exD]).map C09.cmsgBytes).flatten).length + 1)
+        ((([exA, exB] ++ [exBig] ++ [exD]).map C09.cmsgBytes).flatten) fin
+      = ([exA.head, exB.head, exBig.head], .blockedOnBody) :=
+  successors_wait_for_streamed_body [exA, exB] [exD] exBig fin
+    (fun m hm => ex_smallBodied m (by
+      simp only [List.mem_cons, List.not_mem_nil, or_false] at hm ⊢
+      rcases hm with h | h <;> simp [h])) ex_streamedBodied
+
+set_option maxRecDepth 20000 in
+/-- the model evaluated on it, directly -/
+example :
+    aheadLoop 2000 (b!"GET /a HTTP/1.1\r\n\r\nPOST /big HTTP/1.1\r\nContent-Length: 1025\r\n\r\n" ++
+        List.replicate 1025 120 ++ b!"GET /d HTTP/1.1\r\n\r\n") .eof
+      = ([exA.head, exBig.head], .blockedOnBody) := by decide
+
+set_option maxRecDepth 20000 in
+/-- with 1024 bytes — exactly the limit — the successor is available -/
+example :
+    (aheadLoop 2000 (b!"GET /a HTTP/1.1\r\n\r\nPOST /big HTTP/1.1\r\nContent-Length: 1024\r\n\r\n" ++
+        List.replicate 1024 120 ++ b!"GET /d HTTP/1.1\r\n\r\n") .eof).1.map (·.url)
+      = [b!"/a", b!"/big", b!"/d"] := by decide
+
+/-- a chunked body in the middle: blocked after it -/
+example :
+    (aheadLoop 200 (([exA, C09.exChunked, exD].map C09.cmsgBytes).flatten) .eof)
+      = ([exA.head, C09.exChunked.head], .blockedOnBody) := by decide
 
 /-! ### the same on the connection with concurrent handlers (`Lts.Par`) -/
 
